@@ -1,6 +1,6 @@
 #!/bin/bash
 # usage: tools/run_all.sh quick|thorough  -- runs every registered check on the current tree
-cd /verif
+cd "$(dirname "$0")/.."
 tier=${1:-quick}
 rc=0
 for id in $(python3 -c "import json;print(' '.join(sorted(json.load(open('checks.json')).keys())))"); do
